@@ -1,6 +1,6 @@
 (** Extraction of the executable model (OCaml).  Only [ExtrOcamlBasic]; numbers stay the
     extracted inductive [N]; no [Extract Constant]. *)
-From ASModel Require Import Base State Orderings_gen Step Run Sum AccDefs ProtDefs Scope Stale Stale2 StaleC StaleCView.
+From ASModel Require Import Base State Orderings_gen Step Run Sum AccDefs ProtDefs Scope Stale Stale2 StaleC StaleCViewX.
 Require Extraction.
 Require Import ExtrOcamlBasic.
 
